@@ -57,6 +57,8 @@ type Action struct {
 	Partial     int             // >0: write only this many bytes of Reply, then close
 	RST         bool            // close with RST (SO_LINGER 0) when closing
 	CloseAfter  bool            // close after writing the reply
+	SplitAt     int             // >0: write the first SplitAt bytes, pause 3 ms, then the rest (the reply arrives in two reads)
+	WithNext    bool            // do not write yet: the bytes go out in one write with the next reply (or alone after 30 ms)
 }
 
 // Handler decides the reply of a data command. It runs on the connection's reader goroutine, in arrival order.
@@ -86,23 +88,24 @@ type ProtoError struct {
 type Cluster struct {
 	Nodes []*Node
 
-	mu        sync.Mutex
-	handler   Handler
-	password  string
-	topoText  func(node int) []byte // full RESP reply to CLUSTER NODES as seen by node
-	info      map[int]string        // INFO body per node
-	log       []*Request
-	conns     map[int64]*ConnInfo
-	protoErrs []ProtoError
-	seq       int64
-	connSeq   int64
-	closed    bool
-	live      map[int64]*nodeConn
-	acceptCl  map[int]bool // nodes that close every connection right after accepting it
-	recvBuf   int          // SO_RCVBUF for connections accepted from now on (0 = system default)
-	pauseTill time.Time    // readers do not read before this moment (a node too busy to read)
-	roGap     time.Duration          // the +OK of READONLY is sent this long after it arrived (handshake acknowledgements in separate segments)
-	probeGate func() <-chan struct{} // when set, every CLUSTER NODES reply (rendered at arrival) waits for the returned gate
+	mu         sync.Mutex
+	handler    Handler
+	password   string
+	topoText   func(node int) []byte // full RESP reply to CLUSTER NODES as seen by node
+	info       map[int]string        // INFO body per node
+	log        []*Request
+	conns      map[int64]*ConnInfo
+	protoErrs  []ProtoError
+	seq        int64
+	connSeq    int64
+	closed     bool
+	live       map[int64]*nodeConn
+	acceptCl   map[int]bool           // nodes that close every connection right after accepting it
+	recvBuf    int                    // SO_RCVBUF for connections accepted from now on (0 = system default)
+	pauseTill  time.Time              // readers do not read before this moment (a node too busy to read)
+	hsCoalesce bool                   // AUTH's / READONLY's +OK go out in one write with the following reply
+	roGap      time.Duration          // the +OK of READONLY is sent this long after it arrived (handshake acknowledgements in separate segments)
+	probeGate  func() <-chan struct{} // when set, every CLUSTER NODES reply (rendered at arrival) waits for the returned gate
 }
 
 // Node is one listening fake Redis node.
@@ -175,7 +178,7 @@ func (c *Cluster) SetDown(node int, down bool) error {
 	}
 	var ln net.Listener
 	var err error
-	for i := 0; i < 50; i++ {
+	for i := 0; i < 300; i++ { // the port may be in TIME_WAIT / briefly taken: keep trying for six seconds
 		ln, err = net.Listen("tcp4", n.Addr)
 		if err == nil {
 			break
@@ -221,6 +224,10 @@ func (c *Cluster) pauseLeft() time.Duration {
 
 // SetHandshakeGap delays the acknowledgement of READONLY, so that AUTH's and READONLY's +OK reach the proxy apart.
 func (c *Cluster) SetHandshakeGap(d time.Duration) { c.mu.Lock(); c.roGap = d; c.mu.Unlock() }
+
+// SetHandshakeCoalesce makes the nodes send the +OK of AUTH and READONLY in one write with the reply to the
+// command that follows (as a busy server answering a pipelined handshake would).
+func (c *Cluster) SetHandshakeCoalesce(on bool) { c.mu.Lock(); c.hsCoalesce = on; c.mu.Unlock() }
 
 // SetProbeGate makes every reply to CLUSTER NODES wait for a gate obtained from f at the moment the probe
 // arrives (the reply text is rendered at that moment too); nil switches it off.
@@ -424,6 +431,7 @@ func (n *Node) acceptLoop() {
 }
 
 func (nc *nodeConn) writer() {
+	var pending []byte // handshake acknowledgements waiting to go out with the next reply
 	for {
 		nc.qmu.Lock()
 		var it outItem
@@ -438,11 +446,29 @@ func (nc *nodeConn) writer() {
 		}
 		nc.qmu.Unlock()
 		if !have {
+			if len(pending) > 0 {
+				select {
+				case <-nc.done:
+					return
+				case <-nc.qsig:
+				case <-time.After(30 * time.Millisecond):
+					if _, err := nc.nc.Write(pending); err != nil {
+						nc.close(false)
+						return
+					}
+					pending = nil
+				}
+				continue
+			}
 			select {
 			case <-nc.done:
 				return
 			case <-nc.qsig:
 			}
+			continue
+		}
+		if it.act.WithNext && it.act.Gate == nil && it.act.Delay == 0 {
+			pending = append(pending, it.act.Reply...)
 			continue
 		}
 		{
@@ -467,6 +493,21 @@ func (nc *nodeConn) writer() {
 			b := it.act.Reply
 			if it.act.Partial > 0 && it.act.Partial < len(b) {
 				b = b[:it.act.Partial]
+			}
+			if len(pending) > 0 {
+				b = append(pending, b...)
+				pending = nil
+				if it.act.SplitAt > 0 {
+					it.act.SplitAt = 0
+				}
+			}
+			if it.act.SplitAt > 0 && it.act.SplitAt < len(b) && it.act.Partial == 0 {
+				if _, err := nc.nc.Write(b[:it.act.SplitAt]); err != nil {
+					nc.close(false)
+					return
+				}
+				time.Sleep(3 * time.Millisecond)
+				b = b[it.act.SplitAt:]
 			}
 			if len(b) > 0 {
 				if _, err := nc.nc.Write(b); err != nil {
@@ -595,7 +636,10 @@ func (nc *nodeConn) dispatch(raw []byte, args [][]byte) {
 			nc.send(nil, Action{Reply: []byte("-ERR Client sent AUTH, but no password is set\r\n")})
 		case len(args) == 2 && string(args[1]) == pw:
 			nc.authed = true
-			nc.send(nil, Action{Reply: []byte("+OK\r\n")})
+			c.mu.Lock()
+			co := c.hsCoalesce
+			c.mu.Unlock()
+			nc.send(nil, Action{Reply: []byte("+OK\r\n"), WithNext: co})
 		default:
 			nc.send(nil, Action{Reply: []byte("-ERR invalid password\r\n")})
 		}
@@ -616,8 +660,9 @@ func (nc *nodeConn) dispatch(raw []byte, args [][]byte) {
 		nc.ro = true
 		c.mu.Lock()
 		gap := c.roGap
+		co := c.hsCoalesce
 		c.mu.Unlock()
-		nc.send(nil, Action{Reply: []byte("+OK\r\n"), Delay: gap})
+		nc.send(nil, Action{Reply: []byte("+OK\r\n"), Delay: gap, WithNext: co && gap == 0})
 		return
 	case "readwrite":
 		nc.event(name)
